@@ -85,7 +85,8 @@ def cases(draw):
   # tagged series are matched by their full name as received (name;tag=value)
   names = [n + draw(st.sampled_from(['', '', '', ';env=prod', ';b=1;a=2', ';rollup=sum'])) for n in names]
   names = list(dict.fromkeys(names))
-  return {'schemas': schemas, 'aggs': aggs, 'names': names or ['a.b'], 'agg_file_missing': draw(st.integers(0, 7)) == 0}
+  return {'schemas': schemas, 'aggs': aggs, 'names': names or ['a.b'], 'agg_file_missing': draw(st.integers(0, 7)) == 0,
+          'mtime': draw(st.sampled_from([None, None, 1500000000, 1400000000, 1500000000, 1600000000]))}
 
 
 def cap(word, how):
@@ -179,6 +180,12 @@ def execute(ctx, case):
   else:
     with open(ap, 'w') as f:
       f.write(render_aggs(case['aggs']))
+  if case.get('mtime') is not None:
+    # deployed with a preserved / older / identical modification time (cp -p, rsync -t, a roll-back): still the
+    # files the next reload has to use
+    for pth in (sp, ap):
+      if os.path.exists(pth):
+        os.utime(pth, (case['mtime'], case['mtime']))
   n_err = len(b.log_errors)
   try:
     w.reloadStorageSchemas()
